@@ -162,7 +162,9 @@ Record config := {
   c_cwd : bool; c_setuid : bool; c_setgid : bool; c_setpgid : bool;
   c_prep_fails : bool;                (* a NUL in argv / env: prep_exec returns EINVAL before the fork *)
   c_ncand : nat;                      (* number of exec candidates (1 without PATH search) *)
-  c_detached : bool
+  c_detached : bool;
+  c_inflight : bool      (* another thread of the parent is in the middle of a launch of its own: the child ends of its
+                            pipes exist and are inheritable (they are never marked close-on-exec) *)
 }.
 
 Definition rc_find (s : kst) (id : nat) : option (fd * nat) :=
@@ -352,7 +354,8 @@ Definition init_tab (c : config) : table :=
      descriptor the application itself made inheritable *)
   let earlier := [(FUser 300, {| e_ofd := OPipeW 77; e_cx := true |}); (FUser 301, {| e_ofd := OPipeR 78; e_cx := true |});
                   (FUser 302, {| e_ofd := OUser 302; e_cx := false |})] in
-  std ++ files ++ rcsf ++ earlier.
+  let inflight := if c_inflight c then [(FUser 310, {| e_ofd := OPipeR 79; e_cx := false |}); (FUser 311, {| e_ofd := OPipeW 80; e_cx := false |})] else [] in
+  std ++ files ++ rcsf ++ earlier ++ inflight.
 
 Definition init_kst (c : config) : kst :=
   {| tab := init_tab c; nfresh := 0; npipe := 0; trace := []; cnt := []; rcs := init_rcs c; pop := [];
